@@ -273,3 +273,13 @@ fn same_position(a: &State, b: &State) -> bool {
     }
     same
 }
+
+/// (for harnesses in other modules of the crate) a search artifact whose heap-owning parts are all-zero placeholders: an
+/// empty Vec and an empty HashMap have no allocation, so dropping it frees nothing; its content is never read
+pub fn placeholder_artifact() -> SearchArtifact {
+    SearchArtifact {
+        hasher: weechess_core::verif_c08::sym_hasher(),
+        transpositions: TranspositionTableAccess { tables: Vec::new() },
+        state_history: unsafe { std::mem::MaybeUninit::<StateHistory>::zeroed().assume_init() },
+    }
+}
